@@ -202,6 +202,37 @@ def run(ck, F):
         ck.check(R4b, contracts.short(f['parent']) + '::' + f['name'] + '/' + contracts.short(f['params'][0]['t']), good,
                  f'{f["id"]} does not project its argument over its own table', loc=f['loc'], fn=f['id'])
 
+    # ---------------------------------------------------------------- public routes
+    R4c = ck.rule('C10.public-routes', 'Lexicon::specifiers / qualifiers / decompose have a single outcome: what the basis of their own '
+                  'carrier answers for their argument (no shortcut answers a name the basis would refuse)', floor=4)
+    So = Sym(F, opaque=lambda fid: '(anon)::Basis<' in fid, max_depth=12)
+    routes = [('specifiers', 'ipr::Basic_specifier', 'specifier_basis', 'operator()'),
+              ('qualifiers', 'ipr::Basic_qualifier', 'qualifier_basis', 'operator()'),
+              ('decompose', 'ipr::Specifiers', 'specifier_basis', 'decompose'),
+              ('decompose', 'ipr::Qualifiers', 'qualifier_basis', 'decompose')]
+    for name, pt, basis, member in routes:
+        fs = [f for f in F.fns_in('ipr::impl::Lexicon') if f['name'] == name and [p['t'] for p in f['params']] == [pt]]
+        if len(fs) != 1:
+            raise AnalysisBroken(f'anchor vanished: Lexicon::{name}({pt})')
+        f = fs[0]
+        try:
+            outs = So.run(f['id'])
+        except Unsupported as e:
+            raise AnalysisBroken(f'{f["id"]}: outside the evaluator language: {e}')
+        good = len(outs) == 1 and outs[0][1] == 'return'
+        got = f'{len(outs)} outcomes: ' + ', '.join(sorted({k if k != 'return' else 'value' for _s, k, _v in outs}))
+        if good:
+            v = strip(outs[0][2])
+            while isinstance(v, tuple) and v and v[0] in ('castto', 'after'):
+                v = v[2]
+            got = contracts.render(v, outs[0][0], {})
+            good = (v[0] == 'call' and contracts.fn_simple(v[1]) == member and '(anon)::Basis<' in v[1]
+                    and ('std_' + basis.split('_')[0] + 's') in v[1]
+                    and (v[2] is None or (isinstance(v[2], tuple) and v[2][0] == 'global' and v[2][1].endswith('::' + basis)))
+                    and [strip(a) for a in v[3]] == [('param', 0)])
+        ck.check(R4c, f'Lexicon::{name}({contracts.short(pt)})', good,
+                 f'{f["id"]} yields `{got}`; expected {basis}.{member}(P0) on every path', loc=f['loc'], fn=f['id'])
+
     # ---------------------------------------------------------------- set operations
     R5 = ck.rule('C10.set-operations', 'operator|, &, ^ apply the same-named bit operation to the representations of their two '
                  'operands; implies(a, b) holds exactly when b is a subset of a (E1 on single bits)', floor=6)
@@ -232,6 +263,26 @@ def run(ck, F):
                      f'{f["id"]}: truth table on single bits (a,b) -> {tt}; expected b subset of a', loc=f['loc'], fn=f['id'])
     if seen < 4:
         raise AnalysisBroken(f'only {seen} set-operation instantiations over Specifiers/Qualifiers found')
+    # compound forms: a op= b stores and yields a op b
+    R5c = ck.rule('C10.compound-operations', 'operator|=, &=, ^= yield (and store into their left operand) the result of the '
+                  'same-named binary operation on their two operands', floor=6)
+    cops = {'operator|=': 'operator|', 'operator&=': 'operator&', 'operator^=': 'operator^'}
+    nco = 0
+    for f in sorted(F.fn.values(), key=lambda f: f['id']):
+        if f['q'].split('<')[0] in ('ipr::operator|=', 'ipr::operator&=', 'ipr::operator^=') and (f.get('targs') or [''])[0] in ('ipr::Specifiers', 'ipr::Qualifiers'):
+            nco += 1
+            want = ops[cops[f['name']]]
+            outs = S.run(f['id'])
+            good = len(outs) == 1 and outs[0][1] == 'return'
+            got = 'more than one outcome'
+            if good:
+                v = strip(outs[0][2])
+                got = contracts.render(v, outs[0][0], {})
+                good = v[0] == 'op' and v[1] == want and [strip(v[2]), strip(v[3])] in ([('param', 0), ('param', 1)], [('param', 1), ('param', 0)])
+            ck.check(R5c, f['name'] + '<' + contracts.short(f['targs'][0]) + '>', good,
+                     f'{f["id"]} leaves its left operand at `{got}`; expected P0 {want} P1', loc=f['loc'], fn=f['id'])
+    if nco < 6:
+        raise AnalysisBroken(f'only {nco} compound set-operation instantiations over Specifiers/Qualifiers found')
 
 
 def strip(t):
